@@ -289,12 +289,15 @@ class RecordingCheck(PropertyCheck):
             self._expected[key] = (st, r)
         return self._expected[key]
 
-    def e2e(self, name, plan, work, tag):
+    def e2e(self, name, plan, work, tag, qfail=None):
         """run1 with faults (leaf v1); recovery run without edit; recovery run with the leaf edited.
         Returns dict with observations."""
         db = rl.fresh_db(str(work), f"{tag}.db")
-        st1, r1, log1, s1 = rl.sched_run(name, rl.LEAF_V1[name], db, plan=plan)
+        st1, r1, log1, s1 = rl.sched_run(name, rl.LEAF_V1[name], db, plan=plan, qfail=qfail)
         fault_site = next((site for _, f, site in log1 if f != FOK), None)
+        if qfail is not None:
+            q = [x for x in s1.rv_fates.qlog if x[0] == qfail]
+            fault_site = q[0][2] if q else None
         rl.close_backend(s1.backend)
         st2, r2, _, s2 = rl.sched_run(name, rl.LEAF_V1[name], db)
         rl.close_backend(s2.backend)
@@ -319,7 +322,7 @@ class RecordingCheck(PropertyCheck):
             os.chdir(work)
             try:
                 self._expected = {}
-                o = self.e2e(r["workload"], r["plan"], work, "replay")
+                o = self.e2e(r["workload"], r["plan"], work, "replay", qfail=r.get("statement_index"))
             finally:
                 os.chdir(cwd)
                 shutil.rmtree(work, ignore_errors=True)
